@@ -4,6 +4,7 @@
 #include "vclock.hpp"
 #include "node_access.hpp"
 
+#include <array>
 #include <map>
 #include <set>
 
@@ -121,10 +122,28 @@ void run_case(Ctx& c) {
         return nack;
     };
 
-    for (std::size_t i = 0; i < t.nrec(); ++i) {
-        Rec r = t.r(i);
+    // One case in four starts from a constructed state instead of an empty node: the focus peer has two (or three) uploads
+    // of different ages and the clock stands at the edge of the oldest one's timeout.  The prefix is expressed in the same
+    // operation records as the generated history, so it takes the same code path below.
+    std::vector<std::array<std::uint8_t, 8>> prefix;
+    if ((t.h(6) & 3) == 0) {
+        c.label("prefix_uploads_of_different_age");
+        const unsigned timeout_ms = static_cast<unsigned>(std::chrono::duration_cast<std::chrono::milliseconds>(timeout).count());
+        auto req = [&](std::uint8_t k) { prefix.push_back({0, 0x80, k, 2, 0, 0, 0, 0}); };
+        auto gap = [&](unsigned ms) { unsigned v = ms - 1; prefix.push_back({4, 0, 3, static_cast<std::uint8_t>(v & 0xFF), static_cast<std::uint8_t>(v >> 8), 0, 0, 0}); };
+        req(0);
+        gap(1 + (t.h(7) * 37u) % std::min(2999u, timeout_ms - 1));
+        req(1);
+        if (t.h(6) & 4) { gap(1 + (t.h(7) * 11u) % 200u); req(2); }
+        prefix.push_back({4, 0, static_cast<std::uint8_t>((t.h(6) >> 4) % 3), 0, 0, 0, 0, 0});  // to the first timeout: exactly / -1ns / +1ns
+    }
+    const std::size_t nops = prefix.size() + t.nrec();
+    for (std::size_t i = 0; i < nops; ++i) {
+        Rec r = i < prefix.size() ? Rec{prefix[i].data(), 8} : t.r(i - prefix.size());
         int p = (r.a(0) & 0x80) ? focus : r.a(0) % 3;
-        switch (r.op() % 8) {
+        // operation mix: request 3/8, acknowledgement 1/8, advance 2/8, tick 2/8
+        static const unsigned kOpMap[8] = {0, 0, 0, 3, 5, 5, 6, 6};
+        switch (kOpMap[r.op() % 8]) {
             case 0: case 1: case 2: {
                 int k = r.a(1) % 8;
                 if (k >= 5) k = k - 5;  // bias to the long-lived chunks
@@ -186,7 +205,8 @@ void run_case(Ctx& c) {
             case 5: {
                 TP next = TP::max();
                 for (auto& [kk, s] : running) next = std::min(next, s + timeout);
-                unsigned kind = r.a(1) % 8;
+                static const unsigned kKindMap[10] = {0, 1, 2, 3, 4, 5, 6, 7, 0, 2};
+                unsigned kind = kKindMap[r.a(1) % 10];
                 if (next == TP::max() && kind < 3) kind = 3;
                 nanoseconds d{0};
                 const nanoseconds min_ttl = std::chrono::duration_cast<nanoseconds>(node.config().min_manifest_ttl);
